@@ -106,8 +106,10 @@ def check_operation(db, func, req_text, kind="A", static_conds=None, assume=None
     variants = build_variants(db, func, static_conds or {}, max_depth=max_depth)
     res.variants = len(variants)
     for choice, prog, ctx, builder in variants:
-        req = S.parse(req_text, func, ctx=ctx)
-        extra = [S.parse(a, func, ctx=ctx) for a in (assume or [])]
+        fresh_ctx = T.TermCtx(func, db)
+        fresh_ctx.sorts = dict(ctx.sorts)
+        req = S.parse(req_text, func, ctx=fresh_ctx)
+        extra = [S.parse(a, func, ctx=fresh_ctx) for a in (assume or [])]
         if func.get("kind") == "ctor":
             kind = "S"   # an object under construction has no earlier state to preserve
             if "size(this)" in P.prog_atoms(prog) or "size(this)" in T.atoms(req):
